@@ -211,6 +211,9 @@ def check(ctx: Ctx) -> None:
     check_gmd_bookkeeping(ctx, 'C04.g')
     from .c20 import check_gmd_threshold
     check_gmd_threshold(ctx, 'C04.h', [MI])
+    from ..idioms import check_accumulators_initialised, check_per_iteration_leaks
+    check_accumulators_initialised(ctx, 'C04.i', [MI, 'pyphysim/util/misc.py'], floor=2)
+    check_per_iteration_leaks(ctx, 'C04.j', [MI, 'pyphysim/util/misc.py'], floor=1)
     if deferred is not None:
         raise deferred
     if cannot_tell:
